@@ -124,6 +124,39 @@ def gate_rule(ctx, R):
     return n
 
 
+# the mathematical core of the recurrences; construction helpers (from_vec / from_iterator / chain / identity ...)
+# and the in-place vs by-value spelling of an operator are not part of it
+CORE = {'mul': 'mul', 'mul_assign': 'mul', 'add': 'add', 'add_assign': 'add', 'sub': 'sub', 'sub_assign': 'sub',
+        'transpose': 'transpose', 'cholesky': 'cholesky', 'solve_lower_triangular': 'solve_lower_triangular',
+        'try_inverse': 'inverse', 'inverse': 'inverse', 'component_mul': 'component_mul',
+        'component_div': 'component_div', 'dot': 'dot', 'norm': 'norm', 'sqrt': 'sqrt', 'neg': 'neg',
+        'scale': 'scale', 'div': 'div'}
+
+
+def core_ops(F, body, depth=3, _seen=None):
+    """multiset of core linear-algebra operations performed by `body`, private helpers of the same type included"""
+    from lib import local_callee_bodies
+    _seen = _seen or set()
+    out = collections.Counter()
+    if body.npath in _seen or depth < 0:
+        return out
+    _seen.add(body.npath)
+    own = norm_path_parent(body.npath)
+    for c in body.find_calls():
+        if c.name in CORE and ('nalgebra' in c.callee or 'std::ops' in c.callee or 'core::ops' in c.callee or
+                               'f32' in c.callee or 'simba' in c.callee or 'num' in c.callee):
+            out[CORE[c.name]] += 1
+            continue
+        for cb in local_callee_bodies(F, c):
+            if norm_path_parent(cb.npath) == own and cb.d.get('vis') != 'Public':
+                out.update(core_ops(F, cb, depth - 1, _seen))
+    return out
+
+
+def norm_path_parent(p):
+    return p.rsplit('::', 1)[0] if '::' in p else ''
+
+
 def sibling_rule(ctx, R):
     n = 0
     import helpers as HH
@@ -140,8 +173,7 @@ def sibling_rule(ctx, R):
             pb = ctx.anchor(R, PT + '::' + m)
         if bb is None or pb is None:
             continue
-        cb = collections.Counter(c.name for c in bb.find_calls() if c.name in VOC)
-        cp = collections.Counter(c.name for c in pb.find_calls() if c.name in VOC)
+        cb, cp = core_ops(ctx.F, bb), core_ops(ctx.F, pb)
         n += 1
         diff = {k: (cb.get(k, 0), cp.get(k, 0)) for k in set(cb) | set(cp) if cb.get(k, 0) != cp.get(k, 0)}
         ctx.check(not diff, R, bb, m + ':box-and-point-perform-the-same-operations', str(dict(cb)),
@@ -402,29 +434,23 @@ def angle_option_rule(ctx, R):
         n += 1
         ctx.check(mean_idx(a) == i, R, b, 'state->box:component[%d]' % i, repr(a),
                   'argument #%d of Universal2DBox::new is %r (expected mean[%d])' % (i + 1, a, i), c.ln)
-    # the angle operand: local holding the Option
-    op = c.args[2]
-    loc = op.get('pl', {}).get('l') if isinstance(op, dict) else None
+    # the angle operand: alternatives of the Option expression, each with the conditions of the block that builds it
     rows = []
-    if loc is not None:
-        for d in b.defs().get(loc, []):
-            if d[0] != 'assign' or d[1] not in b.live_blocks():
+    ae = eb.arg(c, 2)
+    for alt in (ae.args if ae.kind == 'phi' else [ae]):
+        if alt.kind != 'agg' or not (alt.name.endswith('Option::Some') or alt.name.endswith('Option::None')):
+            continue
+        variant = 'Some' if alt.name.endswith('Some') else 'None'
+        site_bb = alt.site[0] if alt.site else c.bb
+        zero = None
+        for cnd in path_conditions(b, site_bb):
+            cm = cnd.cmp()
+            if not cm:
                 continue
-            rv = d[3]['rv']
-            if rv['k'] != 'agg':
-                continue
-            variant = 'Some' if rv.get('ops') else 'None'
-            conds = path_conditions(b, d[1])
-            zero = None
-            for cnd in conds:
-                cm = cnd.cmp()
-                if not cm:
-                    continue
-                o = orient(cm, lambda e: mean_idx(e) == 2)
-                if o and o[2].kind == 'const' and o[2].const_value() in ('0.0', '0', '-0.0'):
-                    zero = o[0]
-            val = eb._rvalue(rv, (), 0, (d[1], d[2]))
-            rows.append((variant, zero, val))
+            o = orient(cm, lambda e: mean_idx(e) == 2)
+            if o and o[2].kind == 'const' and o[2].const_value() in ('0.0', '0', '-0.0'):
+                zero = o[0]
+        rows.append((variant, zero, alt))
     n += 1
     ok = len(rows) == 2 and {r[0] for r in rows} == {'None', 'Some'} and all(
         (r[0] == 'None' and r[1] == 'Eq') or (r[0] == 'Some' and r[1] == 'Ne') for r in rows)
